@@ -376,6 +376,53 @@ def gen_case(rng, mode="cache"):
     return c
 
 
+REBUILD_TEXT = "model M\n  parameter Real p = 1;\n  Real x;\n  Real y(max = %s*p);\nequation\n  der(x) = -p*x;\n  y = %s*x + p;\nend M;\n"
+
+
+def codegen_rebuild_case(ctx, n, ka, kb):
+    """Code-generated libraries rebuilt at the same paths inside one process: compile, load, edit + rebuild, load.
+    Every loaded model must equal the fresh compile of the source current at that time.  Models of earlier steps are
+    dropped and collected first (a live one keeps its library mapped: C20-F2)."""
+    import gc
+    api = _api()
+    d = _case_dir(ctx, 900000 + n)
+    case = {"stream": "codegen-rebuild", "name": "M", "text": REBUILD_TEXT % (ka, ka), "text2": REBUILD_TEXT % (kb, kb),
+            "opts": {}, "mode": "codegen", "seed": 3, "ka": ka, "kb": kb}
+    try:
+        t = 1_600_000_000 * 10**9
+        for gen, text in enumerate((case["text"], case["text2"])):
+            t += 10**9
+            G.write_file(os.path.join(d, "M.mo"), text, t)
+            rok, rm, rmsg = G.reference_compile(api, d, "M", {"codegen": True})
+            if not rok:
+                raise HarnessError("rebuild model does not compile: %s" % rmsg)
+            ref = G.signature(rm, NPTS, 3)
+            del rm
+            for call in ("compile", "load"):
+                ok, m, msg = G.outcome(api.transfer_model, d, "M", {"codegen": True})
+                ctx.case({"stream": "codegen-rebuild", "generation": gen, "call": call}, nontrivial=True,
+                         key=["rebuild", ka, kb, gen, call])
+                ctx.count("codegen-rebuild:%s-%d:%s" % (call, gen, type(m).__name__ if ok else "raised"))
+                if not ok:
+                    ctx.violation("transfer_model(codegen) raised %s (generation %d, %s)" % (m, gen, call), case,
+                                  expected="a model", observed="%s: %s" % (m, msg))
+                    return
+                df = G.diff(ref, G.signature(m, NPTS, 3))
+                del m
+                gc.collect()
+                if df:
+                    ctx.violation("code generation, source generation %d, %s call: the model differs from a fresh compile of the "
+                                  "current source: %s" % (gen, call, df[0]), case, expected="fresh compile", observed=df)
+                    return
+            # the cache (written now) must be older than the next edit: stamp it like C20 does
+            cf = os.path.join(d, "M.pymoca_cache")
+            if os.path.exists(cf):
+                t += 10**9
+                G.set_mtime(cf, t)
+    finally:
+        shutil.rmtree(d, ignore_errors=True)
+
+
 def gen_case_vecparam(rng):
     """A vector parameter, with and without expand_vectors (finding C19-F2, fixed in 8ef49ef)."""
     gm = G.gen_model(rng, want=["vector-parameter"])
@@ -416,6 +463,9 @@ def run(ctx):
         check_case(ctx, c["case"] if "case" in c else c, drv)
     for c in fixed_cases():
         check_case(ctx, c, drv)
+    for n_ in range(1 if quick else 3):
+        ka, kb = ctx.rng.sample(["2", "3", "5", "0.5"], 2)
+        codegen_rebuild_case(ctx, n_, ka, kb)
     for _ in range(5 if quick else 150):
         ctx.count("stream:vector-parameter")
         check_case(ctx, gen_case_vecparam(ctx.rng), drv)
@@ -457,7 +507,11 @@ def search(ctx):
 
 def replay(ctx, payload):
     G.quiet_logging()
-    check_case(ctx, payload["case"], ctx.driver("drv_c19"))
+    c = payload["case"]
+    if c.get("stream") == "codegen-rebuild":
+        codegen_rebuild_case(ctx, 0, c["ka"], c["kb"])
+        return
+    check_case(ctx, c, ctx.driver("drv_c19"))
 
 
 MANIFEST = dict(
